@@ -58,6 +58,7 @@ func Load(path string) (string, error) {
 		return "", err
 	}
 	pos, loaded, Failures, Observed, Exhausted = 0, true, nil, nil, false
+	resetInjection()
 	tier = rf.Tier
 	return rf.Harness, nil
 }
@@ -195,7 +196,7 @@ func Quiesce() {
 func Event(name string, fn func()) { registerEvent(name, fn) }
 
 // InjectBudget sets the maximal number of injected events per path.
-func InjectBudget(n int) {}
+func InjectBudget(n int) { mu.Lock(); injBudget = n; mu.Unlock() }
 
 // Yield marks an explicit yield point.
 func Yield(label string) { yieldPoint("harness:" + label) }
